@@ -892,7 +892,9 @@ fn merge_two_jobs(sc: &mut Scenario, r: &mut Rng) {
             // consumer of both: its edge to x now covers both files
             edits.push(Edit::AddEdge { down: d, up: x, consumed: Vec::new() });
         } else {
-            edits.push(Edit::AddEdge { down: d, up: x, consumed: vec![1] });
+            // (under the job-id naming every dependency consumes all files of its upstream: the engine is
+            // not told which ones, so a narrower subset could change without anybody being able to notice)
+            edits.push(Edit::AddEdge { down: d, up: x, consumed: if sc.cfg.names == Names::Parts { vec![1] } else { Vec::new() } });
             new_edges.push(d);
         }
     }
